@@ -45,7 +45,10 @@ class Syn:
         if k < 0.55: return "%d%s" % (r.randint(0, 200), r.choice(["i8", "u8", "i32", "u64", "usize", "i128"]))
         if k < 0.65: return r.choice(["true", "false"])
         if k < 0.75: return r.choice(["'a'", "'\\n'", "'\\x41'", "'\\\\'"])
-        return r.choice(['"s"', '"a\\n"', '"x" "y"', '""', '"q\\"q"'])
+        if k < 0.9: return r.choice(['"s"', '"a\\n"', '"x" "y"', '""', '"q\\"q"'])
+        # a string of several adjacent fragments, on one line or continued over lines
+        frags = [r.choice(['"alpha"', '"b"', '""', '"c\\n"', '"\\x41"', '"d e"', '"q\\"q"']) for _ in range(r.randint(2, 5))]
+        return r.choice([" ", "\n\t\t", "  "]).join(frags)
 
     def reference(self, d=2):
         r = self.r
